@@ -25,6 +25,7 @@ ASSUMPTIONS = ['chain table (version bytes, prefixes) written from the chain def
 TABLE = {'mainnet': (0, 5, 'bc'), 'testnet': (111, 196, 'tb'), 'signet': (111, 196, 'tb'), 'regtest': (111, 196, 'bcrt')}
 POW_LIMIT_BITS = {'mainnet': 224, 'testnet': 224, 'regtest': 255}
 CHAINS = C.CHAINS
+UNICODE = ['\u212a', '\u0130', '\u0131', '\u017f', '\u0141', '\u0142', '\u20bf', '\uff11', '\uff51', '\u0261', '\u03a1', '\U0001f600', '\u00b9', '\u2460', '\u0661', '\u00df', '\ufb01']
 
 
 def hash160(b):
@@ -186,7 +187,13 @@ class Selections(BFSFamily):
         import bitcoin.core
         reset_globals()
         cur = 'mainnet'
-        for ev in history:
+        probes = [(o, kind, ref_text(o, kind, payload)) for o in CHAINS for kind, payload in (('p2pkh', P20[2]), ('p2sh', P20[2]), ('p2wpkh', P20[2]), ('p2wsh', P32[2]))]
+        for n, ev in enumerate(history):
+            if n:
+                # the same texts are parsed in every intermediate state as well: an answer given under an earlier selection
+                # must not survive into a later one
+                for o, kind, text in probes:
+                    judge_text(cur, text, 'after selections %r [address of %s]' % (list(history[:n]), o))
             before = (bitcoin.params, bitcoin.core.coreparams)
             try:
                 r = bitcoin.SelectParams(ev)
@@ -307,6 +314,22 @@ def refusal_texts():
     for v in (0, 5, 111, 196):
         for l in list(range(0, 41)) + [64]:
             out.append(B58.check_encode(v, C.fill(l, v)))
+    for hrp in ('bc', 'tb', 'bcrt'):
+        for l in (20, 32):
+            data = [0] + B32.to5(C.fill(l, 9))
+            spare = (len(data) - 1) * 5 - l * 8
+            variants = []
+            if spare:
+                for bits in range(1, 1 << spare):
+                    variants.append(data[:-1] + [data[-1] | bits])          # non-zero padding bits
+            variants.append(data + [0])                                      # a whole extra zero symbol
+            variants.append(data + [0, 0])
+            for d in variants:
+                out.append(hrp + '1' + ''.join(B32.CHARSET[x] for x in d + B32.checksum(hrp, d)))
+    base = ref_text('mainnet', 'p2pkh', P20[2])
+    seg = ref_text('mainnet', 'p2wpkh', P20[2])
+    for u in UNICODE:
+        out += [u, base + u, u + base, base[:5] + u + base[6:], seg[:8] + u + seg[9:], seg.upper()[:8] + u + seg.upper()[9:], seg + u]
     out += ['', ' ', '1', 'bc1', 'bc1q', 'tb1q', '3', 'm', 'bcrt1', '11111111111111111111111111111111', 'é', 'bc1é', '\x00', 'BC1QW508D6QEJXTDG4Y5R3ZARVARY0C5XW7KV8F3T4']
     seen = set()
     return [t for t in out if not (t in seen or seen.add(t))]
